@@ -7,6 +7,7 @@ import mergercommon as mc
 import writercommon as wc
 from vdriver import Query
 import C19
+import C07
 
 
 def build(tier, seed):
@@ -48,12 +49,17 @@ def build(tier, seed):
     # writers with refused adds
     qs.append(wc.wq("writer_refusals", [2, 1, 2, 3], [0, 0, 1, 1], [1, 0, 1, 2], ri=2, bs=36, perm=[1, 0, 2, 2, 3, 1], witness=False))
     qs.append(wc.wq("writer_empty", [], [], [], ri=2, bs=36, witness=False))
+    # filesets: init, dup, iterators, reloads, destroy in either order -- every ghost reader must be closed and
+    # my_fileset destroyed exactly when the last handle goes (the harness is C07's; the final resource checks are C18's)
+    for h in (["adxDbcQb", "adEacRa", "adbyxRtcRb", "acxa"] if quick else ["adxDbcQb", "adEacRa", "adbyxRtcRb", "acxa", "adcQtcRab", "adbyxcRQb", "abx", "adhcQtcRab"]):
+        for ia, ib in ((60, 60), (0, C07.NEVER)):
+            qs.append(C07.fq("fileset_%s_i%s" % (h, ia), h, ia, ib))
     meta = {
-        "functions": sc.FUNCS + ["mtbl_reader_init/_fd/destroy", "reader_iter_free", "merger_iter_free", "mtbl_writer_destroy", "mtbl_iter_destroy"],
-        "units": ["mtbl/sorter.c", "mtbl/reader.c", "mtbl/merger.c", "mtbl/writer.c", "mtbl/iter.c", "mtbl/source.c"],
-        "bounds": "the life-cycle shapes listed under 'queries': objects destroyed at every stage (sorter before/after iteration, after a refused add, pooled with chunk jobs still undelivered, failing merge callback; reader iterators abandoned after one call; files that do not open; merger iterators of all kinds abandoned; writers with refused adds); CBMC --memory-leak-check plus ghost tables for descriptors, mappings and temp files",
-        "outside": "filesets and dups (C07 not built in this session), real threads (C13/C14), histories longer than the harness shapes; 'all finite histories' is approximated by destroy-at-every-stage shapes",
-        "stubs": sc.STUBS + rc.STUBS,
+        "functions": sc.FUNCS + C07.FUNCS + ["mtbl_reader_init/_fd/destroy", "reader_iter_free", "merger_iter_free", "mtbl_writer_destroy", "mtbl_iter_destroy"],
+        "units": ["mtbl/sorter.c", "mtbl/reader.c", "mtbl/merger.c", "mtbl/writer.c", "mtbl/iter.c", "mtbl/source.c", "mtbl/fileset.c"],
+        "bounds": "the life-cycle shapes listed under 'queries': objects destroyed at every stage (sorter before/after iteration, after a refused add, pooled with chunk jobs still undelivered, failing merge callback; reader iterators abandoned after one call; files that do not open; merger iterators of all kinds abandoned; writers with refused adds; filesets with a dup, open iterators, reloads and destroy in either order); CBMC --memory-leak-check plus ghost tables for descriptors, mappings and temp files",
+        "outside": "libmy/my_fileset.c itself (contract model in the fileset queries), real threads (C13/C14), histories longer than the harness shapes; 'all finite histories' is approximated by destroy-at-every-stage shapes",
+        "stubs": sc.STUBS + rc.STUBS + C07.STUBS,
         "assumptions": [],
         "exhaustive": False,
     }
